@@ -4,7 +4,7 @@ from vlib.runner import Case
 
 PID = "C12"
 PROPS = ["Props/C12.v"]
-GEN = []
+GEN = ['ParseConst.v']
 MODEL_IS_SPEC = False
 RULE = ("valid query ASTs (every selector kind, slices with omitted parts, names/literals over an alphabet with quotes, backslash, controls, DEL, non-BMP; numbers in every spelling "
         "within the exact range; every nesting of !, &&, ||, comparisons, parentheses, calls, embedded filters) rendered in random spellings; for each: t1 = str(compile(text)); "
